@@ -341,11 +341,23 @@ Theorem c07_feat_interval_partial : all_ops_ok (fun df => is_ (fst df) [d_sqlite
 Proof. vm_compute. reflexivity. Qed.
 Print Assumptions c07_feat_interval_partial.
 
-(* the tree under test: none of the five proposed repairs is in it.  When one lands, this obligation stops checking (so does a
-   later regression), the finding is set to fixed and the pin is flipped; the statements above need no edit. *)
-Theorem c07_head_fixes : GenDialectFeat.head_fixes = mkFixes false false false false false.
+(* the tree under test: the repairs of N3 (19e2c2a), N5 (ae779df), N6 (3318626) and N11 (2f7a440) are in it; the repair of N8 is
+   blocked by a pinned test.  A regression of one of the four -- or a landing N8 repair -- stops this obligation; the statements
+   above need no edit. *)
+Theorem c07_head_fixes : GenDialectFeat.head_fixes = mkFixes true true true false true.
 Proof. vm_compute. reflexivity. Qed.
 Print Assumptions c07_head_fixes.
+
+(* hence, on this tree, at full strength: *)
+Theorem c07_head_except_all : forall df, In df feats -> except_all_ok df = true.
+Proof. apply c07_feat_except_all. now rewrite c07_head_fixes. Qed.
+Print Assumptions c07_head_except_all.
+Theorem c07_head_recursive : forall df, In df feats -> recursive_ok df = true.
+Proof. apply c07_feat_recursive. now rewrite c07_head_fixes. Qed.
+Print Assumptions c07_head_recursive.
+Theorem c07_head_interval : forall df, In df feats -> interval_ok df = true.
+Proof. apply c07_feat_interval. now rewrite c07_head_fixes. Qed.
+Print Assumptions c07_head_interval.
 
 Theorem c07_feat_paren_operand : all_ops_ok (fun df => implies (prefers_paren (snd df)) (supported (fst df) KParenOperand)) = true.
 Proof. vm_compute. reflexivity. Qed.
